@@ -13,21 +13,22 @@ VERIF = os.path.dirname(os.path.dirname(os.path.abspath(__file__)))
 REPO = os.environ.get("NEPCHECK_REPO", "/repo")
 
 def run_one(pid, m):
-    src = open(os.path.join(REPO, m["file"])).read()
-    if src.count(m["old"]) != 1:
-        return (pid, m["name"], "STALE", "pattern occurs %d times" % src.count(m["old"]))
+    edits = [m] + m.get("also", [])
+    files = {}
+    for e in edits:
+        if e["file"] not in files:
+            files[e["file"]] = open(os.path.join(REPO, e["file"])).read()
+        src = files[e["file"]]
+        if src.count(e["old"]) != 1:
+            return (pid, m["name"], "STALE", "pattern occurs %d times in %s" % (src.count(e["old"]), e["file"]))
+        files[e["file"]] = src.replace(e["old"], e["new"])
     d = tempfile.mkdtemp(prefix="nepmut-")
     try:
-        f = os.path.join(d, "mut.go")
-        open(f, "w").write(src.replace(m["old"], m["new"]))
-        args = [os.path.join(VERIF, "bin/nepcheck"), "-property", pid, "-repo", REPO, "-out", d, "-overlay", m["file"] + "=" + f]
-        for extra in m.get("also", []):
-            src2 = open(os.path.join(REPO, extra["file"])).read()
-            if src2.count(extra["old"]) != 1:
-                return (pid, m["name"], "STALE", "extra pattern")
-            f2 = os.path.join(d, "mut%d.go" % len(args))
-            open(f2, "w").write(src2.replace(extra["old"], extra["new"]))
-            args += ["-overlay", extra["file"] + "=" + f2]
+        args = [os.path.join(VERIF, "bin/nepcheck"), "-property", pid, "-repo", REPO, "-out", d]
+        for k, (fn, content) in enumerate(files.items()):
+            f = os.path.join(d, "mut%d.go" % k)
+            open(f, "w").write(content)
+            args += ["-overlay", fn + "=" + f]
         r = subprocess.run(args, capture_output=True, text=True)
         out = r.stdout
         fired = [l for l in out.splitlines() if l.startswith("VIOLATED") or l.startswith("UNDECIDED")]
